@@ -27,9 +27,13 @@ type nsHistOpts struct {
 	ops      []string // operation alphabet (weights by repetition)
 	// afterStep runs after the shared invariants.
 	afterStep func(rt *rapid.T, w *nsWorld, h *nsHist)
+	// preDeliver / postDeliver bracket every datagram delivery to a live node.
+	preDeliver  func(rt *rapid.T, w *nsWorld, h *nsHist, p *nsPacket, from netip.AddrPort, x *nsNode)
+	postDeliver func(rt *rapid.T, w *nsWorld, h *nsHist, p *nsPacket, from netip.AddrPort, x *nsNode)
 }
 
 type nsHist struct {
+	o         *nsHistOpts
 	rt        *rapid.T
 	w         *nsWorld
 	steps     []string
@@ -73,7 +77,14 @@ func (h *nsHist) flush(rounds int) {
 func (h *nsHist) runFor(d, step time.Duration) {
 	for el := time.Duration(0); el < d; el += step {
 		h.flush(40)
+		// check before virtual time moves on, so that "valid when the handshake completed" is judged
+		// at the instant of completion
+		nsSharedInvariants(h.rt, h)
+		if h.o != nil && h.o.afterStep != nil {
+			h.o.afterStep(h.rt, h.w, h)
+		}
 		time.Sleep(step)
+		h.w.s.settle()
 	}
 	h.flush(40)
 }
@@ -87,7 +98,7 @@ var nsDefaultOps = []string{
 func nsRunHistory(rt *rapid.T, s *nsSim, o nsHistOpts) *nsHist {
 	w := nsGenWorld(rt, s, o.world)
 	w.pid = o.pid
-	h := &nsHist{rt: rt, w: w, delivered: map[int]map[int]bool{}, stats: map[string]int{}}
+	h := &nsHist{o: &o, rt: rt, w: w, delivered: map[int]map[int]bool{}, stats: map[string]int{}}
 	w.startAll(rt)
 	ops := o.ops
 	if len(ops) == 0 {
@@ -282,7 +293,13 @@ func nsDeliverUnauth(rt *rapid.T, h *nsHist, p *nsPacket, from, to netip.AddrPor
 	}
 	preTun := s.tunOutLen(x)
 	cp := &nsPacket{ID: p.ID, From: from, To: to, Data: p.Data, Src: p.Src}
+	if h.o != nil && h.o.preDeliver != nil {
+		h.o.preDeliver(rt, h.w, h, cp, from, x)
+	}
 	s.deliver(cp)
+	if h.o != nil && h.o.postDeliver != nil {
+		h.o.postDeliver(rt, h.w, h, cp, from, x)
+	}
 	if genuine && !alreadyConsumed && okh && nsConsumed(x, hd) {
 		h.markDelivered(p, x.idx)
 	}
